@@ -1,17 +1,91 @@
 (* C06 — proof-number solver verdicts agree with the game-theoretic truth.
-   Only statements, `exact`, and Print Assumptions live here. *)
-From Coq Require Import NArith ZArith List Bool.
-Require Import AndOr.
-Import ListNotations.
+   Only statements, `exact`, and Print Assumptions live here.  Models: Pn.v (prove/pn.go without PN-squared; entry point
+   PnRun.pn_run with the constants of /repo), Dfpn.v (prove/dfpn.go).  Proofs: AndOr.v, AndOrS.v, PnFacts.v, PnRunFacts.v.
 
-(* The notion of truth.  For any game (positions with decidable equality, legal successors, finished positions
-   marked won/not won for the attacker, side to move): the attacker has a forced win under the rule that the third
-   occurrence of a position on the line of play is not a win (Wh, with the history of the line) from the empty history
-   iff the position is won within some number of plies in the history-free game (wn) - i.e. iff it lies in the
-   attractor that the retrograde oracle of the check computes. *)
+   The game the claims are about (PnFacts.v), for the attacker colour aw:
+     succs basis p   legal successors of p: every move of AllMoves that Position.Move accepts
+     terminal aw p   Some true = finished and won by the attacker, Some false = finished otherwise (lost or drawn), None = live
+     attp aw p       the attacker is to move
+   wn n p       = "won within n plies" of the history-free game (AndOr.v) - the attractor the retrograde oracle computes.
+   Wb k h p     = "won within k plies on the line of play h" where the third occurrence (Position.Equal) of a position on
+                  the line is not a win (AndOrS.v). *)
+From Coq Require Import NArith ZArith List Bool.
+Require Import Board Move GameOver AndOr AndOrS Pn PnRun PnFacts PnRunFacts.
+Require Import Generated.Consts.
+Import ListNotations.
+Open Scope N_scope.
+
+(* 1. The notion of truth, any game with decidable equality of positions: a forced win under the third-repetition rule
+   from the empty history = won within some number of plies in the history-free game. *)
 Theorem C06_truth_equiv :
   forall (pos : Type) (pos_dec : forall a b : pos, {a = b} + {a <> b}) (moves : pos -> list pos)
          (terminal : pos -> option bool) (att : pos -> bool) (p : pos),
     Wh pos pos_dec moves terminal att [] p <-> exists n, wn pos moves terminal att n p = true.
 Proof. exact truth_equiv. Qed.
 Print Assumptions C06_truth_equiv.
+
+(* 1'. The same with a depth bound and with positions identified by a boolean test `same` that the game respects. *)
+Theorem C06_truth_equiv_bounded :
+  forall (pos : Type) (same : pos -> pos -> bool) (moves : pos -> list pos) (terminal : pos -> option bool) (att : pos -> bool),
+    (forall n q p, same q p = true -> wn pos moves terminal att n q = wn pos moves terminal att n p) ->
+    forall k p, Wb pos same moves terminal att k [] p <-> wn pos moves terminal att k p = true.
+Proof. exact truth_equiv_bounded. Qed.
+Print Assumptions C06_truth_equiv_bounded.
+
+(* 2. pn_invariant: every node of every tree that the search loop of the PN model reaches satisfies the invariant
+   PnFacts.pok, which says (recursively, for the node at the head of its path from the root, `cur` its position):
+     - proof number 0  (phi at an OR node, delta at an AND node)  ->  exists n, wn n cur = true        (W)
+     - disproof number 0 (the dual)  ->  not (depth <= MaxDepth /\ Wb (MaxDepth - depth) ancestors cur)   (L)
+     - AND/OR flag = side to move; children are legal moves of cur and satisfy the invariant at their positions;
+       an unsolved expanded node has a child for every legal move. *)
+Theorem C06_pn_invariant :
+  forall basis cfg (p0 : position) k dfuel t st w,
+    size p0 <= 8 ->
+    search_loop basis cfg (to_move_white p0) k dfuel p0 (root_node cfg (to_move_white p0) p0) stats0 = (t, st, w) ->
+    pok basis cfg (to_move_white p0) t [(p0, false)].
+Proof. exact pn_invariant. Qed.
+Print Assumptions C06_pn_invariant.
+
+(* 3. pn_verdict_sound, for Prover.Prove as modelled by PnRun.pn_run (any node limit, PreserveSolved, MaxDepth, any fuel),
+   boards up to 8x8, attacker = side to move:
+     proven    -> the attacker has a forced win from p, and a returned move (type <> 0) is a legal move after which the
+                  attacker still has a forced win;
+     disproven -> on the empty line of play there is no win within MaxDepth plies (32767 when MaxDepth = 0) under the rule
+                  that a draw, a lost game and a threefold repetition (Position.Equal) are not wins;
+     unknown   -> no claim. *)
+Theorem C06_pn_verdict_sound :
+  forall iters dfuel maxnodes preserve maxdepth (p : position) root st result mv why,
+    size p <= 8 ->
+    pn_run iters dfuel maxnodes preserve maxdepth p = (root, st, result, mv, why) ->
+    let aw := to_move_white p in
+    let won q := exists n, wn position (succs gen_basis) (terminal aw) (attp aw) n q = true in
+    (result = 1 -> won p /\ (mT mv <> 0 -> exists q, pmv gen_basis p mv = Ok q /\ In mv (all_moves p) /\ won q)) /\
+    (result = 2 -> ~ ((0 <= eff_maxdepth maxdepth)%Z /\
+                      Wb position pos_equal (succs gen_basis) (terminal aw) (attp aw) (Z.to_nat (eff_maxdepth maxdepth - 0)) [] p)).
+Proof. exact pn_run_verdict_sound. Qed.
+Print Assumptions C06_pn_verdict_sound.
+
+(* 4. The two verdicts against the attractor of the retrograde oracle.  _partial: they assume that positions which
+   Position.Equal identifies (board and side to move) have the same history-free value (equal_congruent); proving that
+   for the bit-level model needs the invariant that the reserves are determined by the board and is not done. *)
+Theorem C06_pn_proven_rules_partial :
+  forall basis cfg p0 iters dfuel root st mv why,
+    equal_congruent basis (to_move_white p0) -> size p0 <= 8 ->
+    prove_pn basis cfg (to_move_white p0) iters dfuel p0 = (root, st, 1, mv, why) ->
+    exists k, Wb position pos_equal (succs basis) (terminal (to_move_white p0)) (attp (to_move_white p0)) k [] p0.
+Proof. exact pn_proven_rules. Qed.
+Print Assumptions C06_pn_proven_rules_partial.
+
+Theorem C06_pn_disproven_attractor_partial :
+  forall basis cfg p0 iters dfuel root st mv why,
+    equal_congruent basis (to_move_white p0) -> size p0 <= 8 -> (0 <= pc_maxdepth cfg)%Z ->
+    prove_pn basis cfg (to_move_white p0) iters dfuel p0 = (root, st, 2, mv, why) ->
+    wn position (succs basis) (terminal (to_move_white p0)) (attp (to_move_white p0)) (Z.to_nat (pc_maxdepth cfg)) p0 = false.
+Proof. exact pn_disproven_attractor. Qed.
+Print Assumptions C06_pn_disproven_attractor_partial.
+
+(* Not proved (tested by the check: model = solver on every generated run, oracle = exact retrograde solution):
+     dfpn_proven_sound    : NoCollisionOn ... -> threats_sound (C19) -> dfpn p = (Proven, m) -> won p /\ won (p.m)
+     dfpn_disproven_sound : open in the design (a bound derived from a repetition on one path is reused on other paths);
+                            the oracle hunts for a wrong `disproven` on shuffle-prone roots and has found none.
+     PN-squared (the model has no PN-squared). *)
